@@ -29,6 +29,8 @@ pub struct Placement {
     /// extra user calls/frames made once (e.g. map_or's lambda), beyond main and the first v_f
     pub extra_calls: u64,
     pub extra_height: u64,
+    /// the self-call passes an error argument: from n >= 1 the call yields error "boom" without recursing
+    pub error_arg: bool,
 }
 
 fn vn(n: u64) -> String {
@@ -39,6 +41,9 @@ fn vtrue(_: u64) -> String {
 }
 fn vfalse(_: u64) -> String {
     "false".into()
+}
+fn vzero(_: u64) -> String {
+    "0".into()
 }
 fn vq(_: u64) -> String {
     "\"q\"".into()
@@ -57,6 +62,7 @@ pub fn catalogue() -> Vec<Placement> {
         calls_per_level: frames_per_level,
         extra_calls: 0,
         extra_height: 0,
+        error_arg: false,
     };
     vec![
         // ---------------- tail positions
@@ -67,26 +73,29 @@ pub fn catalogue() -> Vec<Placement> {
         t("tail/let-then-if", "fn v_f(v_n: int, v_a: int)->int{ let v_m = v_n - 1; if(v_n == 0, v_a, v_f(v_m, v_a + 1)) }", true, 1),
         t("tail/if_error-2", "fn v_f(v_n: int, v_a: int)->int{ if_error(if(v_n == 0, v_a, error(\"more\")), v_f(v_n - 1, v_a + 1)) }", true, 1),
         t("tail/if_error-3", "fn v_f(v_n: int, v_a: int)->int{ if_error(if(v_n == 0, v_a, error(\"more\")), \"more\", v_f(v_n - 1, v_a + 1)) }", true, 1),
-        Placement { name: "tail/bool-or", decl: "fn v_f(v_n: int)->bool{ v_n == 0 || v_f(v_n - 1) }", main_ty: "bool", main_body: "v_f({N})", tail: true, value: vtrue, frames_per_level: 1, calls_per_level: 1, extra_calls: 0, extra_height: 0 },
-        Placement { name: "tail/bool-and", decl: "fn v_f(v_n: int)->bool{ v_n != 0 && v_f(v_n - 1) }", main_ty: "bool", main_body: "v_f({N})", tail: true, value: vfalse, frames_per_level: 1, calls_per_level: 1, extra_calls: 0, extra_height: 0 },
+        Placement { name: "tail/bool-or", decl: "fn v_f(v_n: int)->bool{ v_n == 0 || v_f(v_n - 1) }", main_ty: "bool", main_body: "v_f({N})", tail: true, value: vtrue, frames_per_level: 1, calls_per_level: 1, extra_calls: 0, extra_height: 0, error_arg: false },
+        Placement { name: "tail/bool-and", decl: "fn v_f(v_n: int)->bool{ v_n != 0 && v_f(v_n - 1) }", main_ty: "bool", main_body: "v_f({N})", tail: true, value: vfalse, frames_per_level: 1, calls_per_level: 1, extra_calls: 0, extra_height: 0, error_arg: false },
         t("tail/cast", "fn v_f(v_n: int, v_a: int)->int{ cast<int>(if(v_n == 0, v_a, v_f(v_n - 1, v_a + 1))) }", true, 1),
         t("tail/optional-or-value", "fn v_f(v_n: int, v_a: int)->int{ if(v_n == 0, some(v_a), none()).or(v_f(v_n - 1, v_a + 1)) }", true, 1),
-        Placement { name: "tail/optional-or-optional", decl: "fn v_f(v_n: int, v_a: int)->Optional<int>{ if(v_n == 0, some(v_a), none()).or(v_f(v_n - 1, v_a + 1)) }", main_ty: ii, main_body: "v_f({N}, 0).value()", tail: true, value: vn, frames_per_level: 1, calls_per_level: 1, extra_calls: 0, extra_height: 0 },
-        Placement { name: "tail/optional-and", decl: "fn v_f(v_n: int, v_a: int)->Optional<int>{ if(v_n == 0, none(), some(1)).and(v_f(v_n - 1, v_a + 1)) }", main_ty: "bool", main_body: "v_f({N}, 0).has_value()", tail: true, value: vfalse, frames_per_level: 1, calls_per_level: 1, extra_calls: 0, extra_height: 0 },
-        Placement { name: "tail/map_or-default", decl: "fn v_f(v_n: int, v_a: int)->int{ map_or(if(v_n == 0, some(v_a), none()), (v_x: int)->{v_x}, v_f(v_n - 1, v_a + 1)) }", main_ty: ii, main_body: "v_f({N}, 0)", tail: true, value: vn, frames_per_level: 1, calls_per_level: 1, extra_calls: 1, extra_height: 1 },
+        Placement { name: "tail/optional-or-optional", decl: "fn v_f(v_n: int, v_a: int)->Optional<int>{ if(v_n == 0, some(v_a), none()).or(v_f(v_n - 1, v_a + 1)) }", main_ty: ii, main_body: "v_f({N}, 0).value()", tail: true, value: vn, frames_per_level: 1, calls_per_level: 1, extra_calls: 0, extra_height: 0, error_arg: false },
+        Placement { name: "tail/optional-and", decl: "fn v_f(v_n: int, v_a: int)->Optional<int>{ if(v_n == 0, none(), some(1)).and(v_f(v_n - 1, v_a + 1)) }", main_ty: "bool", main_body: "v_f({N}, 0).has_value()", tail: true, value: vfalse, frames_per_level: 1, calls_per_level: 1, extra_calls: 0, extra_height: 0, error_arg: false },
+        Placement { name: "tail/map_or-default", decl: "fn v_f(v_n: int, v_a: int)->int{ map_or(if(v_n == 0, some(v_a), none()), (v_x: int)->{v_x}, v_f(v_n - 1, v_a + 1)) }", main_ty: ii, main_body: "v_f({N}, 0)", tail: true, value: vn, frames_per_level: 1, calls_per_level: 1, extra_calls: 1, extra_height: 1, error_arg: false },
         t("tail/unit-and", "fn v_f(v_n: int, v_a: int)->int{ ().and(if(v_n == 0, v_a, v_f(v_n - 1, v_a + 1))) }", true, 1),
-        Placement { name: "tail/to_str-identity", decl: "fn v_f(v_n: int, v_a: str)->str{ to_str(if(v_n == 0, v_a, v_f(v_n - 1, v_a))) }", main_ty: "str", main_body: "v_f({N}, \"q\")", tail: true, value: vq, frames_per_level: 1, calls_per_level: 1, extra_calls: 0, extra_height: 0 },
+        Placement { name: "tail/to_str-identity", decl: "fn v_f(v_n: int, v_a: str)->str{ to_str(if(v_n == 0, v_a, v_f(v_n - 1, v_a))) }", main_ty: "str", main_body: "v_f({N}, \"q\")", tail: true, value: vq, frames_per_level: 1, calls_per_level: 1, extra_calls: 0, extra_height: 0, error_arg: false },
+        Placement { name: "tail/error-argument-unread", decl: "fn v_f(v_n: int, v_a: int, v_u: int)->int{ if(v_n == 0, v_a, v_f(v_n - 1, v_a + 1, error(\"boom\"))) }", main_ty: ii, main_body: "v_f({N}, 0, 0)", tail: true, value: vzero, frames_per_level: 1, calls_per_level: 1, extra_calls: 0, extra_height: 0, error_arg: true },
+        Placement { name: "tail/error-argument-via-if_error", decl: "fn v_f(v_n: int, v_a: int, v_u: int)->int{ if_error(if(v_n == 0, v_a, error(\"more\")), \"more\", v_f(v_n - 1, v_a + 1, error(\"boom\"))) }", main_ty: ii, main_body: "v_f({N}, 0, 0)", tail: true, value: vzero, frames_per_level: 1, calls_per_level: 1, extra_calls: 0, extra_height: 0, error_arg: true },
         // ---------------- not tail positions
-        Placement { name: "nontail/under-operator", decl: "fn v_f(v_n: int)->int{ if(v_n == 0, 0, 1 + v_f(v_n - 1)) }", main_ty: ii, main_body: "v_f({N})", tail: false, value: vn, frames_per_level: 1, calls_per_level: 1, extra_calls: 0, extra_height: 0 },
-        Placement { name: "nontail/arg-of-user-fn", decl: "fn v_id(v_x: int)->int{ v_x }\nfn v_f(v_n: int, v_a: int)->int{ if(v_n == 0, v_a, v_id(v_f(v_n - 1, v_a + 1))) }", main_ty: ii, main_body: "v_f({N}, 0)", tail: false, value: vn, frames_per_level: 1, calls_per_level: 2, extra_calls: 0, extra_height: 0 },
-        Placement { name: "nontail/in-tuple", decl: "fn v_f(v_n: int, v_a: int)->(int, int){ if(v_n == 0, (v_a, 0), (v_f(v_n - 1, v_a + 1)::item0, 0)) }", main_ty: ii, main_body: "v_f({N}, 0)::item0", tail: false, value: vn, frames_per_level: 1, calls_per_level: 1, extra_calls: 0, extra_height: 0 },
+        Placement { name: "nontail/error-argument-unread", decl: "fn v_f(v_n: int, v_a: int, v_u: int)->int{ if(v_n == 0, v_a, 0 + v_f(v_n - 1, v_a + 1, error(\"boom\"))) }", main_ty: ii, main_body: "v_f({N}, 0, 0)", tail: false, value: vzero, frames_per_level: 1, calls_per_level: 1, extra_calls: 0, extra_height: 0, error_arg: true },
+        Placement { name: "nontail/under-operator", decl: "fn v_f(v_n: int)->int{ if(v_n == 0, 0, 1 + v_f(v_n - 1)) }", main_ty: ii, main_body: "v_f({N})", tail: false, value: vn, frames_per_level: 1, calls_per_level: 1, extra_calls: 0, extra_height: 0, error_arg: false },
+        Placement { name: "nontail/arg-of-user-fn", decl: "fn v_id(v_x: int)->int{ v_x }\nfn v_f(v_n: int, v_a: int)->int{ if(v_n == 0, v_a, v_id(v_f(v_n - 1, v_a + 1))) }", main_ty: ii, main_body: "v_f({N}, 0)", tail: false, value: vn, frames_per_level: 1, calls_per_level: 2, extra_calls: 0, extra_height: 0, error_arg: false },
+        Placement { name: "nontail/in-tuple", decl: "fn v_f(v_n: int, v_a: int)->(int, int){ if(v_n == 0, (v_a, 0), (v_f(v_n - 1, v_a + 1)::item0, 0)) }", main_ty: ii, main_body: "v_f({N}, 0)::item0", tail: false, value: vn, frames_per_level: 1, calls_per_level: 1, extra_calls: 0, extra_height: 0, error_arg: false },
         t("nontail/in-array", "fn v_f(v_n: int, v_a: int)->int{ if(v_n == 0, v_a, [v_f(v_n - 1, v_a + 1)].get(0)) }", false, 1),
         t("nontail/inside-lambda", "fn v_f(v_n: int, v_a: int)->int{ if(v_n == 0, v_a, ((v_x: int)->{v_f(v_x, v_a + 1)})(v_n - 1)) }", false, 2),
         t("nontail/via-alias", "fn v_f(v_n: int, v_a: int)->int{ let v_g = v_f; if(v_n == 0, v_a, v_g(v_n - 1, v_a + 1)) }", false, 1),
         t("nontail/via-partial", "fn v_f(v_n: int, v_a: int)->int{ if(v_n == 0, v_a, partial(v_f, v_n - 1)(v_a + 1)) }", false, 1),
         t("nontail/other-function", "fn v_f(v_n: int, v_a: int)->int{ fn v_h(v_m: int, v_b: int)->int{ v_f(v_m, v_b) } if(v_n == 0, v_a, v_h(v_n - 1, v_a + 1)) }", false, 2),
-        Placement { name: "nontail/if-condition", decl: "fn v_f(v_n: int)->bool{ if(v_n == 0, true, if(v_f(v_n - 1), true, false)) }", main_ty: "bool", main_body: "v_f({N})", tail: false, value: vtrue, frames_per_level: 1, calls_per_level: 1, extra_calls: 0, extra_height: 0 },
-        Placement { name: "nontail/or-first-arg", decl: "fn v_f(v_n: int)->bool{ v_n == 0 || (v_f(v_n - 1) || false) }", main_ty: "bool", main_body: "v_f({N})", tail: false, value: vtrue, frames_per_level: 1, calls_per_level: 1, extra_calls: 0, extra_height: 0 },
+        Placement { name: "nontail/if-condition", decl: "fn v_f(v_n: int)->bool{ if(v_n == 0, true, if(v_f(v_n - 1), true, false)) }", main_ty: "bool", main_body: "v_f({N})", tail: false, value: vtrue, frames_per_level: 1, calls_per_level: 1, extra_calls: 0, extra_height: 0, error_arg: false },
+        Placement { name: "nontail/or-first-arg", decl: "fn v_f(v_n: int)->bool{ v_n == 0 || (v_f(v_n - 1) || false) }", main_ty: "bool", main_body: "v_f({N})", tail: false, value: vtrue, frames_per_level: 1, calls_per_level: 1, extra_calls: 0, extra_height: 0, error_arg: false },
         t("nontail/if_error-protected", "fn v_f(v_n: int, v_a: int)->int{ if(v_n == 0, v_a, if_error(v_f(v_n - 1, v_a + 1), 0 - 1)) }", false, 1),
     ]
 }
@@ -143,7 +152,9 @@ struct PlacementJob {
 
 /// deepest user frame of the fault-free run: main is at height 1, the first v_f at 2
 fn height(p: &Placement, n: u64) -> u64 {
-    if p.tail {
+    if p.error_arg {
+        2
+    } else if p.tail {
         2 + p.extra_height
     } else {
         2 + p.frames_per_level * n
@@ -151,7 +162,9 @@ fn height(p: &Placement, n: u64) -> u64 {
 }
 
 fn calls(p: &Placement, n: u64) -> u64 {
-    if p.tail {
+    if p.error_arg {
+        2
+    } else if p.tail {
         2 + p.extra_calls
     } else {
         2 + p.calls_per_level * n
@@ -159,7 +172,9 @@ fn calls(p: &Placement, n: u64) -> u64 {
 }
 
 fn tail_iters(p: &Placement, n: u64) -> u64 {
-    if p.tail {
+    if p.error_arg {
+        0
+    } else if p.tail {
         n
     } else {
         0
@@ -247,7 +262,11 @@ impl Job for PlacementJob {
             expect.push(Outcome::Violation("MaximumRecursion".into()));
         }
         if expect.is_empty() {
-            expect.push(Outcome::Value((p.value)(n)));
+            if p.error_arg && n >= 1 {
+                expect.push(Outcome::Error("boom".to_string()));
+            } else {
+                expect.push(Outcome::Value((p.value)(n)));
+            }
         }
         // when both could trip the order is fixed by evaluation; for the catalogue a tail function
         // only gains depth through `extra_height` at the very end, after all iterations
@@ -263,6 +282,7 @@ impl Job for PlacementJob {
                 (Outcome::Violation(v), false) if v == "MaximumRecursion" => "non-tail call treated as a tail call",
                 (Outcome::Value(_), false) if depth_trips => "non-tail recursion did not consume stack depth",
                 (Outcome::Value(_), true) if rec_trips => "tail iterations not bounded by the recursion limit",
+                (Outcome::Value(_), _) if p.error_arg => "self-call with an error argument was evaluated instead of yielding the error",
                 (Outcome::Value(_), _) => "wrong result",
                 _ => "unexpected outcome",
             };
